@@ -18,7 +18,7 @@ from analysis import units
 from rules import dir_shared as ds, storage_shared as ss, c18
 
 EXPLANATION = __doc__
-FLOOR = 28
+FLOOR = 33
 
 
 def run(ctx):
@@ -26,6 +26,7 @@ def run(ctx):
     epoch_step(ctx)
     publish_rules(ctx)
     rehash_rules(ctx)
+    tree_effects_unconditional(ctx, 'C01')
     for name, pre in c18.CFGS:
         flow_complete(ctx, 'C01.F.leaf[%s]' % name, prog.one(pre + 'hash_leaf_with_commitment'), ['commitment', 'epoch'], 'leaf hash')
         flow_complete(ctx, 'C01.F.parent[%s]' % name, prog.one(pre + 'compute_parent_hash_from_children'),
@@ -322,6 +323,34 @@ def rehash_rules(ctx):
            'set_child: last_epoch = max(own, child), min_descendant_epoch = min(own, child) (child\'s when unset)' if ok1 and ok2 else
            'set_child epoch bookkeeping changed: last_epoch <- %s ; min_descendant_epoch <- %s' % ([show(e)[:60] for e in le], [show(e)[:60] for e in me]),
            key='RF-GUARD|set_child.bookkeeping')
+
+
+def tree_effects_unconditional(ctx, pfx):
+    """the three node operations the insertion relies on cannot silently do nothing: set_child links the child on
+    every Ok path, update_hash assigns the hash of every non-leaf node, write_to_storage stores the record"""
+    from rules import storage_shared as ss
+    prog = ctx.prog
+    sc = prog.one('akd::tree_node::TreeNode::set_child')
+    eff = ss._field_assign_blocks(sc, 'self', 'left_child') + ss._field_assign_blocks(sc, 'self', 'right_child')
+    ss.must_do(ctx, pfx + '.R.set_child_unconditional', 'RF-ORDER', sc, eff, 'set_child stores the child label in left_child / right_child',
+               key='RF-ORDER|set_child_unconditional')
+    par = ss._field_assign_blocks(sc, 'child_node', 'parent')
+    ss.must_do(ctx, pfx + '.R.set_child_parent', 'RF-ORDER', sc, par, 'set_child records itself as the child\'s parent', key='RF-ORDER|set_child_parent')
+    uh = prog.fn_and_inner('akd::tree_node::TreeNode::update_hash')
+    eff = ss._field_assign_blocks(uh, 'self', 'hash')
+    leaf = []
+    for v in variant_edges(uh, lambda x: access_path(x) == 'self.node_type'):
+        tg = dict(v['edges'])
+        for val, nm in v['names'].items():
+            tg.setdefault(nm, v['else'])
+        if 'Leaf' in tg:
+            leaf.append((v['block'], tg['Leaf']))
+    ss.must_do(ctx, pfx + '.R.update_hash_assigns', 'RF-ORDER', uh, eff, 'update_hash assigns self.hash for every non-leaf node',
+               bypass_edges=leaf, key='RF-ORDER|update_hash_assigns')
+    ws = prog.fn_and_inner('akd::tree_node::TreeNode::write_to_storage')
+    eff = [ev['pos'][0] for ev, c in find_events(ws, 'TreeNodeWithPreviousValue::write_to_storage')]
+    ss.must_do(ctx, pfx + '.R.write_to_storage_stores', 'RF-ORDER', ws, eff, 'TreeNode::write_to_storage stores the (latest, previous) record',
+               key='RF-ORDER|write_to_storage_stores')
 
 
 def units_directory(ctx, pfx, prefixes=('akd::directory::', 'akd::append_only_zks::', 'akd::tree_node::', 'akd::helper_structs', 'akd::storage::types::')):
